@@ -1670,6 +1670,13 @@ def generate(cfgpath, outdir):
         for imp in mod.get("imports", []):
             out.append("From Verif Require Import %s." % imp)
         out += ["Local Open Scope Z_scope.", "Local Open Scope bool_scope.", ""]
+        # per-module constants (macros / enum constants evaluated by the compiler)
+        mconsts = list(mod.get("constants", []))
+        if mconsts:
+            mv = query_consts(mconsts, cfg.get("constants_header", ""))
+            for nm in mconsts:
+                out.append("Definition %s : Z := %d." % (sanitize(mod.get("const_rename", {}).get(nm, nm)), mv[nm]))
+            out.append("")
         for pre in mod.get("prelude", []):
             out.append(pre)
         for fname in tr.order:
